@@ -410,3 +410,41 @@ __CPROVER_ensures(self->_sinks.g_p == OLD(self->_sinks.g_p) + ((sink_name <= T_(
     harness='  SMk* m; Key k; Sink* s; SM__insert_sink(m, k, s);',
     dropped=['sink names as integer keys', 'shared_ptr -> weak_ptr conversion'], trusted=['std::lower_bound; std::vector::insert'], min_obligations=10)
 UNITS += [sm_find, sm_insert]
+
+# ------------------------------------------------------------------------------------------ SinkManager::create_or_get_sink
+SCOG_PRELUDE = SORTED_S + r'''
+typedef struct Spinlock { int d; } Spinlock;
+typedef struct SMk { KVec _sinks; Spinlock _spinlock; } SMk;
+#define T_(s) ((s)->_sinks.tracked)
+bool g_locked; size_t g_news, g_inserts_done; Sink* g_new; Key g_new_key;
+void LOCK_GUARD(Spinlock* l) __CPROVER_assigns(g_locked) __CPROVER_ensures(g_locked);
+/* _find_sink by its contract (unit SM.find): the live sink registered under the name, or nothing */
+Sink* SM__find_sink(SMk* self, Key target)
+__CPROVER_requires(g_locked) /*@ C17 "the sink registry is only searched under its lock" */
+__CPROVER_assigns()
+__CPROVER_ensures((target == T_(self)->g_key && !T_(self)->expired) ==> RET == T_(self)->sink)
+__CPROVER_ensures((target == T_(self)->g_key && T_(self)->expired) ==> RET == NULL);
+Sink* SINK_new(Key name) __CPROVER_assigns(g_news, g_new, g_new_key) __CPROVER_ensures(__CPROVER_is_fresh(RET, sizeof(Sink)) && g_news == OLD(g_news) + 1 && g_new == RET && g_new_key == name);
+void SM__insert_sink(SMk* self, Key name, Sink* s)
+__CPROVER_requires(g_locked && s == g_new && name == g_new_key && (name != T_(self)->g_key || T_(self)->expired)) /*@ C17 "an entry is inserted only under the lock and only when no live sink of that name is registered" */
+__CPROVER_assigns(g_inserts_done) __CPROVER_ensures(g_inserts_done == OLD(g_inserts_done) + 1);
+'''
+sm_create_or_get = dict(
+    name='SM.create_or_get', primary='C17', props={'C17'}, kind='S',
+    desc='SinkManager::create_or_get_sink: idempotent by name - a live sink of that name is returned and nothing is created; otherwise (no entry, or the old sink is gone) exactly one sink is created, registered and returned; all under the registry lock',
+    structs=[], prelude=SCOG_PRELUDE, enforce='SM_create_or_get_sink', replace=['LOCK_GUARD', 'SM__find_sink', 'SINK_new', 'SM__insert_sink'],
+    funcs=[dict(src=dict(header=SMH, cls='SinkManager', name='create_or_get_sink'), cfun='SM_create_or_get_sink', sig='Sink* SM_create_or_get_sink(SMk* self, Key sink_name)', ret_default='NULL',
+                cls_c='SM', member_fields=['_sinks', '_spinlock'], siblings=['_find_sink', '_insert_sink'],
+                pre_rules=[(r'static_assert\([^;]*\);', ''), (r'LockGuard\s+const\s+lock\s*\{\s*_spinlock\s*\}\s*;', 'LOCK_GUARD(&_spinlock);'), (r'std::shared_ptr<Sink>\s+sink\s*=', 'Sink* sink ='),
+                           (r'if\s+constexpr\s*\(std::disjunction_v<std::is_same<FileSink, TSink>, std::is_base_of<FileSink, TSink>>\)\s*\{\s*sink\s*=\s*std::make_shared<TSink>\(sink_name,[^;]*;\s*\}\s*else\s*\{\s*sink\s*=\s*std::make_shared<TSink>\([^;]*;\s*\}', 'sink = SINK_new(sink_name);', '!')],
+                contract=r'''
+__CPROVER_requires(__CPROVER_is_fresh(self, sizeof(*self)) && __CPROVER_is_fresh(T_(self), sizeof(LGk)) && __CPROVER_is_fresh(self->_sinks.other, sizeof(LGk)) && T_(self)->sink != NULL && !g_locked && g_news == 0 && g_inserts_done == 0)
+__CPROVER_assigns(g_locked, g_news, g_new, g_new_key, g_inserts_done)
+__CPROVER_ensures((sink_name == T_(self)->g_key && !T_(self)->expired) ==> (RET == T_(self)->sink && g_news == 0 && g_inserts_done == 0)) /*@ C17 "asking for the name of a live sink returns that very sink and creates nothing (shared sinks keep working, idempotent from any thread)" */
+__CPROVER_ensures(g_news == g_inserts_done && g_news <= 1 && (g_news == 1 ==> (RET == g_new && g_new_key == sink_name))) /*@ C17 "otherwise exactly one sink is created, registered under the name and returned - also when an entry of that name whose sink was destroyed is still in the registry" */
+__CPROVER_ensures(RET != NULL)
+''')],
+    harness='  SMk* m; Key k; SM_create_or_get_sink(m, k);',
+    dropped=['sink names as integer keys', 'the sink type and its constructor arguments (both if-constexpr arms construct one sink; file sinks get the name as file name)', 'LockGuard RAII unlock', 'shared_ptr as pointer'],
+    trusted=['_find_sink / _insert_sink by the contracts units SM.find / SM.insert prove (restated)'], min_obligations=15)
+UNITS += [sm_create_or_get]
